@@ -27,13 +27,13 @@ func init() {
 		Assumptions: []string{"non-empty strictly ascending key lists, maxSize >= 1"},
 		Flavours:    releaseAnd386,
 		Required: []string{"single-key-list", "maxSize=1", "maxSize>=len", "shard/single-key", "shard/full", "key-equals-common-prefix-of-successors", "split/restart-on-shorter-prefix",
-			"first-byte-distinct", "bytes/nul", "bytes/>=0x80", "deep-common-prefix", "fan-out/257-children", "fan-out/256-children", "keys>=40000", "keys>2^18", "maxSize>=2^30"},
+			"first-byte-distinct", "bytes/nul", "bytes/>=0x80", "deep-common-prefix", "fan-out/257-children", "fan-out/256-children", "keys>=40000", "keys>2^18", "maxSize>=2^30", "same-buffer-refilled-in-place"},
 		Families: func(c *mon.Config) []mon.Family {
 			fams := []mon.Family{
 				{Name: "universe-subsets", N: 1 << 12, Run: c17Subsets},
-				{Name: "keyzoo", N: c.Pick(10000, 2000000), Run: c17Zoo},
-				{Name: "fan-out", N: 3 * 4 * 3, Run: c17FanOut},
-				{Name: "many-keys", N: c.Pick(2, 40), Run: c17ManyKeys},
+				{Name: "keyzoo", Env: 6, N: c.Pick(10000, 2000000), Run: c17Zoo},
+				{Name: "fan-out", Env: 2, N: 3 * 4 * 3, Run: c17FanOut},
+				{Name: "many-keys", Env: 1, N: c.Pick(2, 40), Run: c17ManyKeys},
 			}
 			if c.Thorough() {
 				fams = append(fams, mon.Family{Name: "large", N: 2000, Run: c17Large})
@@ -224,6 +224,21 @@ func c17Zoo(w *mon.W, idx int) {
 		if !c17Check(w, keys, ms) {
 			return
 		}
+	}
+	// the caller refills the SAME buffer in place with another key set of the same length (the argument buffer
+	// of this worker is reused, so the slice has the same address and length as in the calls above)
+	if len(keys) >= 2 {
+		g := 1 + r.Intn(min(len(keys), 256))
+		k2 := make([]string, len(keys))
+		for i := range keys {
+			k2[i] = string([]byte{byte(i * g / len(keys))}) + keys[i]
+		}
+		for _, ms := range []int{1, 3, len(keys)/2 + 1} {
+			if !c17Check(w, k2, ms) {
+				return
+			}
+		}
+		w.Bucket("same-buffer-refilled-in-place")
 	}
 	if idx%16 == 0 {
 		// maxSize at the top of the int32 domain: one shard
